@@ -291,6 +291,13 @@ impl ProbeSpec {
         p.start[0] = 0.004;
         p
     }
+    /// Start values a few units in the last place inside the lower limits (a clamped move then
+    /// changes the value by less than machine epsilon).
+    pub fn near_bound(n: usize) -> ProbeSpec {
+        let mut p = ProbeSpec::standard(n);
+        p.start = p.bounds.iter().map(|(lo, _)| f64::from_bits(if *lo >= 0. { lo.to_bits() + 3 } else { lo.to_bits() - 3 })).collect();
+        p
+    }
     pub fn raw(mut self) -> ProbeSpec {
         self.memo = false;
         self
